@@ -19,7 +19,7 @@ struct Block {
 fn mix_blocks(max_depth: usize, nsizes: u64) -> (Vec<Block>, u64) {
     let mut v = vec![];
     let mut start = 0u64;
-    for (vi, var) in VARIANTS.iter().enumerate() {
+    for (vi, var) in VARIANTS.iter().enumerate().filter(|(_, var)| var.mix) {
         let per_frame = var.techs.len() as u64 * nsizes;
         for d in 1..=max_depth {
             let n = per_frame.pow(d as u32) * STYLES;
@@ -44,7 +44,7 @@ fn mix_program(blocks: &[Block], idx: u64) -> Program {
         let s = if t == Tech::Leaf { 0 } else { size_choice(var.arch, i, digit % b.nsizes) };
         frames.push((t, s));
     }
-    Program { variant: b.variant, frames, style }
+    Program { variant: b.variant, frames, style, placement: 0 }
 }
 
 fn uniform_cases(depths: &[usize], nsizes: u64) -> Vec<Program> {
@@ -58,7 +58,45 @@ fn uniform_cases(depths: &[usize], nsizes: u64) -> Vec<Program> {
                 for sc in 0..nsizes {
                     for style in 0..STYLES {
                         let frames = (0..d).map(|i| (t, size_choice(var.arch, i, sc))).collect();
-                        v.push(Program { variant: vi, frames, style });
+                        v.push(Program { variant: vi, frames, style, placement: 0 });
+                    }
+                }
+            }
+        }
+    }
+    v
+}
+
+/// Space 'placement': the placement menu (module / stack addresses, module-list order) over every
+/// variant: the full technique x size product up to `max_depth` and one-technique chains at the
+/// listed depths, x styles. Placement 0 of the variants of the mix space is the mix space itself.
+fn placement_cases(max_depth: usize, nsizes: u64, depths: &[usize]) -> Vec<Program> {
+    let mut v = vec![];
+    for (vi, var) in VARIANTS.iter().enumerate() {
+        let per_frame = var.techs.len() as u64 * nsizes;
+        for placement in (if var.mix { 1 } else { 0 })..PLACEMENTS {
+            for d in 1..=max_depth {
+                for code in 0..per_frame.pow(d as u32) {
+                    let mut r = code;
+                    let mut frames = vec![];
+                    for i in 0..d {
+                        let digit = r % per_frame;
+                        r /= per_frame;
+                        let t = var.techs[(digit / nsizes) as usize];
+                        frames.push((t, if t == Tech::Leaf { 0 } else { size_choice(var.arch, i, digit % nsizes) }));
+                    }
+                    for style in 0..STYLES {
+                        v.push(Program { variant: vi, frames: frames.clone(), style, placement });
+                    }
+                }
+            }
+            for &t in var.techs.iter().filter(|t| **t != Tech::Leaf) {
+                for &d in depths {
+                    for sc in 0..nsizes {
+                        for style in 0..STYLES {
+                            let frames = (0..d).map(|i| (t, size_choice(var.arch, i, sc))).collect();
+                            v.push(Program { variant: vi, frames, style, placement });
+                        }
                     }
                 }
             }
@@ -206,15 +244,16 @@ fn main() {
         let mut def = CheckDef::new(
             "C04",
             "exploration",
-            "every stack program = (CPU x OS variant, per-frame (technique, frame size), style) is laid out with its ground truth (memory, registers, modules, symbol text, expected chain), walked by the real walk_stack and compared frame by frame: return address / resume_address, context ip, instruction = ra - adj, sp, trust, tracked callee-saved registers (frame pointer + two more: value and validity), module, function name, and the walk must stop at the generated end. Space 'mix': the full product of techniques x sizes over all frames for every depth <= bound x 8 styles; space 'uniform': one technique for the whole chain at every listed depth up to 64. distinct_nontrivial = distinct well-formed programs walked (programs the generator rejects as not well-formed for the variant are counted separately and not walked).",
+            "every stack program = (CPU x OS variant, per-frame (technique, frame size), style) is laid out with its ground truth (memory, registers, modules, symbol text, expected chain), walked by the real walk_stack and compared frame by frame: return address / resume_address, context ip, instruction = ra - adj, sp, trust, tracked callee-saved registers (frame pointer + two more: value and validity), module, function name, and the walk must stop at the generated end. Space 'mix': the full product of techniques x sizes over all frames for every depth <= bound x 8 styles; space 'uniform': one technique for the whole chain at every listed depth up to 64 (both at placement 0: low addresses, module list in address order). Space 'placement': every other entry of the placement menu (module and stack addresses up to the top of the architecture's user address space, 48-bit on ARM64; a bystander module; module list in descending / rotated instead of address order) x the full product up to the placement depth bound and one-technique chains at the placement depths x 8 styles, over all variants including the ARM64 Android / Linux ones that are not part of 'mix'. distinct_nontrivial = distinct well-formed programs walked (programs the generator rejects as not well-formed for the variant are counted separately and not walked).",
         );
         def.assumptions = vec![
-            "the generator is the specification: it encodes the walker conventions of DESIGN Appendix A (technique priority, scan windows, MIPS32 4-word skip, amd64/Windows slack, leaf first frame, iOS-only ARM frame pointers, pointer-auth stripping below bit 47, STACK WIN layouts as documented in walker.rs)".into(),
+            "the generator is the specification: it encodes the walker conventions of DESIGN Appendix A (technique priority, scan windows, MIPS32 4-word skip, amd64/Windows slack, leaf first frame, iOS-only ARM frame pointers, pointer-auth stripping (mask = all bits up to the highest bit of max(2^47 - 1, end of the highest-addressed module), whatever the order of the module list), STACK WIN layouts as documented in walker.rs)".into(),
             "a scanned frame is generated only where the frame-pointer technique is documented to fail (frame pointer invalid, or holding a scratch value: 0 on x86/arm64, a zero-filled area on amd64, unreadable non-zero on iOS ARM)".into(),
             "after a STACK WIN frame the validity of callee-saved registers the program did not assign is not compared (documentation says unknown, the code forwards them: F1, property C07); their values, when marked valid, must still be the true ones".into(),
             "tracked registers: frame pointer and two callee-saved registers per architecture (ebx/esi, rbx/r12, r4/r5, x19/x20, s0/s1); other registers are not compared".into(),
             "all words of a frame that are not a return address are zeros, small constants or stack addresses; the context is fully valid; one thread; little-endian memory".into(),
             "styles: 8 fixed combinations of saved-register subsets, split CFI records, slack 0..240 bytes, STACK WIN parameter bytes, numeric register spellings, pointer-auth bits, one or two modules".into(),
+            "placements: 4 fixed layouts per architecture (stackgen::placement_of): low; low + a bystander module below, list descending; top of the user address space (x86/ARM 0xf000_0000 with the stack at 0xff00_0000, MIPS32 below 2^31, amd64 canonical 0x7ff8_0000_0000, ARM64 0xffff_8000_0000 with the stack at 0xffff_f000_0000, MIPS64 40-bit); main module low with the second module, a bystander and the stack at the top, list rotated so that the lowest module is named last. Modules never overlap each other or the stack; the bystander has no symbols and no stack word points into it; on ARM64 every true address fits under the documented strip mask and the pointer-auth bits (bits 48..55) lie above it".into(),
         ];
         def.extra.insert("depth_bound_mix".into(), json!(max_depth));
         def.extra.insert("sizes_per_frame".into(), json!(nsizes));
@@ -229,7 +268,16 @@ fn main() {
         let uni = std::sync::Arc::new(uniform_cases(&depths, nsizes));
         let u2 = uni.clone();
         let uniform = Space::new("uniform", uni.len() as u64, move |idx, l| run_program(&uni[idx as usize], l), move |idx| describe_program(&u2[idx as usize]));
-        def.spaces = vec![mix, uniform];
+        let pdepth = ctx.tier.pick(2, 3);
+        let pdepths: Vec<usize> = if quick { vec![3, 8] } else { vec![4, 5, 8, 16, 33, 64] };
+        def.extra.insert("placement_depth_bound".into(), json!(pdepth));
+        def.extra.insert("placement_uniform_depths".into(), json!(pdepths));
+        def.extra.insert("placement_sizes_per_frame".into(), json!(2));
+        def.extra.insert("placements".into(), json!((0..PLACEMENTS).map(|k| placement_of(Arch::Arm64, k).name).collect::<Vec<_>>()));
+        let plc = std::sync::Arc::new(placement_cases(pdepth, 2, &pdepths));
+        let p2 = plc.clone();
+        let placement = Space::new("placement", plc.len() as u64, move |idx, l| run_program(&plc[idx as usize], l), move |idx| describe_program(&p2[idx as usize]));
+        def.spaces = vec![mix, uniform, placement];
         def
     })
 }
